@@ -77,3 +77,9 @@ def seq_map(f, xs, *extras):
 def mk_tconst(name, args):
     from kernel.type import TConst
     return TConst(name, *args)
+
+
+def bounded(n):
+    def deco(f):
+        return f
+    return deco
